@@ -10,7 +10,7 @@ Pieces
 * execution of one call ``(kind, pair, v1, v2)`` on the real stream, classification of the outcome,
 * complete digest of the stream + the three cached solver objects (``canon``),
 * an independent reference flash (Rachford-Rice by bisection, K-values re-evaluated from the package's
-  Gamma/Phi/PCF and Psat by successive substitution to 1e-13) with bubble/dew pressures and temperatures,
+  Gamma/Phi/PCF and Psat by successive substitution to 1e-12) with bubble/dew pressures and temperatures,
 * ``FlashSystem``: a generic engine.System parametrised by enumerators and an oracle callback.
 """
 from __future__ import annotations
@@ -34,6 +34,8 @@ _EXTRA = {
     'RX':   (('EthylLactate', 'LacticAcid', 'Water', 'Ethanol'), {}),
     # one member above its critical temperature over most of the T grid (Propane Tc = 369.9 K, CO2 Tc = 304.1 K)
     'SC':   (('Propane', 'Hexane', 'Octane'), {}),
+    # vlle with a light gas that is NOT phase-locked and at most one LLE-capable chemical in the liquid (wet nitrogen)
+    'VL3':  (('Water', 'Ethanol', 'Octane', 'N2'), {}),
     'SCW':  (('CO2', 'Water', 'Ethanol'), {}),
     'ORD':  (('N2', 'Methanol', 'Glucose', 'Water', 'Propanol'), {'N2': 'g', 'Glucose': 's'}),
 }
@@ -261,7 +263,7 @@ def _v(x):
 
 VLE_FIELDS = ('method', '_dmol_vle', '_dF_mol', '_T', '_P', '_H_hat', '_S_hat', '_V', '_K', '_v', '_index', '_nonzero', '_N', '_z', '_z_last',
               '_z_light', '_z_heavy', '_F_mol', '_F_mol_vle', '_F_mass', '_chemical', '_mol_vle')
-LLE_FIELDS = ('method', '_z_mol', '_T', '_lle_chemicals', '_K', '_phi')
+LLE_FIELDS = ('method', 'composition_cache_tolerance', 'temperature_cache_tolerance', '_z_mol', '_T', '_lle_chemicals', '_K', '_phi')
 SLE_FIELDS = ('_x', '_index', '_chemical', '_nonzero', '_mol_solute', '_solute_index', '_solute_gamma_index', 'activity_coefficient')
 
 def solver_digest(s):
@@ -284,7 +286,7 @@ def full_digest(s):
 class RefFlash:
     """K-values, bubble/dew points and the (T,P) flash of the chemicals `idx` of package `th`, written from the
     defining equations: K_i = pcf_i Psat_i gamma_i(x) / (phi_i(y) P); Rachford-Rice by bisection; successive
-    substitution on x, y to 1e-13.  Only volatile (partitioning) chemicals are handled."""
+    substitution on x, y to 1e-12.  Only volatile (partitioning) chemicals are handled."""
     def __init__(self, th, idx):
         chems = [th.chemicals.tuple[i] for i in idx]
         self.th = th; self.idx = tuple(idx); self.chems = chems; self.n = len(chems)
@@ -301,17 +303,24 @@ class RefFlash:
 
     @staticmethod
     def rr(z, K):
-        """vapour fraction solving sum z_i (K_i-1)/(1+V(K_i-1)) = 0 by bisection; 0 / 1 when no root inside."""
-        f = lambda V: float((z * (K - 1.) / (1. + V * (K - 1.))).sum())
+        """vapour fraction solving sum z_i (K_i-1)/(1+V(K_i-1)) = 0 (monotone decreasing in V on [0, 1]); 0 / 1 when no root inside.
+        Brent's method inside the bracket [0, 1] to machine precision (bisection as fall-back)."""
+        c = K - 1.
+        zc = z * c
+        f = lambda V: float((zc / (1. + V * c)).sum())
         if f(0.) <= 0.: return 0.
         if f(1.) >= 0.: return 1.
-        lo, hi = 0., 1.
-        for _ in range(200):
-            mid = 0.5 * (lo + hi)
-            if f(mid) > 0.: lo = mid
-            else: hi = mid
-            if hi - lo < 1e-15: break
-        return 0.5 * (lo + hi)
+        try:
+            from scipy.optimize import brentq
+            return float(brentq(f, 0., 1., xtol=1e-16, rtol=8.9e-16, maxiter=200))
+        except Exception:
+            lo, hi = 0., 1.
+            for _ in range(200):
+                mid = 0.5 * (lo + hi)
+                if f(mid) > 0.: lo = mid
+                else: hi = mid
+                if hi - lo < 1e-15: break
+            return 0.5 * (lo + hi)
 
     def bubble_P(self, z, T):
         Ps = self.Psats(T); y = z.copy(); P = float((z * Ps).sum())
@@ -396,7 +405,7 @@ class RefFlash:
             yn = K * xn; yn = yn / yn.sum()
             d = max(np.abs(xn - x).max(), np.abs(yn - y).max(), abs(Vn - V))
             x, y, V = xn, yn, Vn
-            if d < 1e-13: break
+            if d < 1e-12: break
         return V, x, y, K
 
 def volatile_indices(th, present):
@@ -562,6 +571,16 @@ def run_call(st, action):
             else: raise ValueError(action)
         elif kind == 'vlle':
             s.vlle(T=float(action[2]), P=float(action[3]))
+        elif kind == 'ctor':
+            # the constructor flag vlle=True: a NEW Stream ('S') / MultiStream ('M') made from the current totals, equilibrated on construction
+            tmo_ = fx.tmo(); IDs_ = s.chemicals.IDs
+            tot_ = totals(s)
+            flows_ = {IDs_[i]: float(x) for i, x in enumerate(tot_) if x}
+            if action[1] == 'S':
+                s2 = tmo_.Stream(None, T=float(action[2]), P=float(action[3]), vlle=True, thermo=st.th, **flows_)
+            else:
+                s2 = tmo_.MultiStream(None, l=list(flows_.items()), T=float(action[2]), P=float(action[3]), vlle=True, thermo=st.th)
+            st.s = s = s2
         elif kind == 'refill':
             # the user empties the stream and fills it with another set of the package's chemicals (the cached solver objects stay)
             IDs, flows = list(action[1]), [float(x) for x in action[2]]
@@ -668,6 +687,8 @@ class FlashSystem(System):
         if len(config) > 4 and isinstance(config[4], tuple) and config[4] and config[4][0] == 'opts':
             for k, v in config[4][1]:
                 if k == 'vle_method': st.s.vle.method = v      # documented solver option: 'fixed-point' (default) or 'shgo'
+                elif k == 'lle_ctol': st.s.lle.composition_cache_tolerance = float(v)     # documented LLE attributes (constructor arguments)
+                elif k == 'lle_ttol': st.s.lle.temperature_cache_tolerance = float(v)
         st.tot0 = totals(st.s)
         st.last = None; st.n_calls = 0; st.extra = {}
         return st
